@@ -124,6 +124,9 @@ class Repo:
         if m is None:
             return None
         f = m.functions.get(rest)
+        if f is None and "!" in rest:
+            # 'module.func!variant': a second contract on the body of module.func
+            f = m.functions.get(rest.split("!", 1)[0])
         if f is None:
             return None
         return m, f
